@@ -12,6 +12,7 @@ use super::lem_basic::*;
 use super::lem_mark::*;
 use super::lem_sweep::*;
 use super::lem_mut::*;
+use super::lem_term::*;
 use super::{GcPtr, GcColor, Phase};
 
 pub proof fn lemma_inv_unfold(s: S) -> (w: (Seq<GcPtr>, int))
@@ -48,6 +49,8 @@ pub broadcast proof fn b_mark_one(pre: S, post: S, r: ControlFlow<()>)
         &&& (r is Break ==> same(pre, post))
         // marking neither allocates nor releases, and does not touch the float state
         &&& post.m.total == pre.m.total && post.m.allocated == pre.m.allocated && post.m.fl == pre.m.fl
+        // every marking step that does something decreases the termination measure
+        &&& (r is Continue ==> 0 <= measure(post) < measure(pre))
     }
 {
     if inv(pre) && pre.phase == Phase::Mark && mark_one_rel(pre, post, r) {
@@ -60,6 +63,7 @@ pub broadcast proof fn b_mark_one(pre: S, post: S, r: ControlFlow<()>)
         } else {
             lemma_same_inv(pre, post, w.0, w.1);
         }
+        if r is Continue { lemma_mark_one_decreases(pre, post, r, w.0, w.1); }
         lemma_inv_fold(post, w.0, w.1);
     }
 }
@@ -72,11 +76,13 @@ pub broadcast proof fn b_sweep_one(pre: S, post: S, r: ControlFlow<()>)
         &&& (r is Break ==> post.sweep is None && post.sweep_prev is None && post.m == pre.m)
         // a sweep step may release a block; it never allocates and does not touch the float state
         &&& post.m.total <= pre.m.total && post.m.allocated == pre.m.allocated && post.m.fl == pre.m.fl
+        &&& (r is Continue ==> 0 <= measure(post) < measure(pre))
     }
 {
     if inv(pre) && pre.phase == Phase::Sweep && sweep_one_rel(pre, post, r) {
         let w = lemma_inv_unfold(pre);
         lemma_sweep_inv(pre, post, r, w.0, w.1);
+        if r is Continue { lemma_inv_sweep_one_pre(pre, w.0, w.1); lemma_sweep_one_decreases(pre, post, r, w.0, w.1); }
         lemma_inv_fold(post, sweep_l(pre, w.0, w.1), sweep_cur(pre, w.1));
     }
 }
